@@ -395,6 +395,25 @@ pub fn run_c20(tier: &str) -> Report {
     }
     rep.sink.extend(vs);
 
+    // the sibling stride and the first-child test that compaction and range scans rely on are the numeric
+    // distance between consecutive siblings and "position 0 in the group" of the reference hierarchy
+    for r in 0..=29 {
+        let c = *en::fam_chains(2, 29)[3].iter().find(|&&c| rc::resolution(c) == Some(r.max(2))).unwrap();
+        let c = if r < 2 { rc::ancestor(c, r).unwrap() } else { c };
+        let mut sib = rc::children(rc::parent(c).unwrap());
+        sib.sort_unstable(); // numeric order (at resolution 1 the quintant order differs from the code order)
+        let want = sib[1] - sib[0];
+        match subj::guard_val(|| a5::core::serialization::get_stride(r)) {
+            Ok(s) if s == want => {}
+            other => rep.sink.push(viol("C20/stride", format!("get_stride({}) = {:?}; consecutive siblings of resolution {} are {:#x} apart", r, other, r, want), json!({"kind": "stride", "res": r}))),
+        }
+        for (k, &x) in sib.iter().enumerate() {
+            match subj::guard_val(|| a5::core::serialization::is_first_child(x, None)) {
+                Ok(b) if b == (k == 0) => {}
+                other => rep.sink.push(viol("C20/stride", format!("is_first_child({}) = {:?} for sibling #{} of its group", subj::hex(x), other, k), json!({"kind": "cell", "id": subj::hex(x)}))),
+            }
+        }
+    }
     // histories: ancestors and descendants must not depend on what the thread asked before (a wrong
     // ancestor breaks the order claims); collision families of cells, all ordered pairs of calls
     let (npairs, v) = crate::checks::longlists::collision_circuits(tier, "C20/ancestor-or-descendant-after-call");
